@@ -4,7 +4,7 @@ CONSTANTS Coef2 <- R22
  MinC = 1
  MaxC = 3
  CoefA3 <- S202
- CoefB3 <- R11
+ CoefB3 <- S11
  Const3 <- R11
  B = 16
  BU = 7
